@@ -104,3 +104,55 @@ def lang_ctx(L, key=None):
     if k not in _CACHE:
         _CACHE[k] = LangCtx(L)
     return _CACHE[k]
+
+
+# ---------------------------------------------------------------------------------------------
+# inverse direction: a langspec dict (e.g. coreLang's langspec.json) -> Lang record in TJ normal form
+def _ttc_rec(t):
+    if t is None:
+        return {'type': 'none'}
+    if t['type'] == 'number':
+        return {'type': 'number', 'value10': int(round(t['value'] * 10))}
+    if t['type'] == 'function':
+        return {'type': 'function', 'name': t['name'], 'arguments': [int(round(a * 10)) for a in t.get('arguments', [])]}
+    return {'type': t['type'], 'lhs': _ttc_rec(t['lhs']), 'rhs': _ttc_rec(t['rhs'])}
+
+
+def _ascii(s):
+    return ''.join(c if 32 <= ord(c) < 127 and c not in '"\\' else '?' for c in str(s))
+
+
+def _meta_rec(m):
+    return [{'k': _ascii(k), 'v': _ascii(v)} for k, v in (m or {}).items()]
+
+
+def record_of(spec):
+    assets = []
+    for a in spec['assets']:
+        steps = []
+        for s in a['attackSteps']:
+            risk = s.get('risk')
+            steps.append({
+                'name': s['name'], 'kind': s['type'], 'tags': list(s.get('tags') or []),
+                'risk': ({'present': True, 'c': bool(risk.get('isConfidentiality')), 'i': bool(risk.get('isIntegrity')),
+                          'a': bool(risk.get('isAvailability'))} if risk else
+                         {'present': False, 'c': False, 'i': False, 'a': False}),
+                'ttc': _ttc_rec(s.get('ttc')), 'meta': _meta_rec(s.get('meta')),
+                'requires': ({'present': True, 'exprs': s['requires']['stepExpressions']} if s.get('requires')
+                             else {'present': False, 'exprs': []}),
+                'reaches': ({'present': True, 'overrides': bool(s['reaches']['overrides']),
+                             'exprs': s['reaches']['stepExpressions']} if s.get('reaches')
+                            else {'present': False, 'overrides': False, 'exprs': []})})
+        assets.append({'name': a['name'], 'category': a.get('category', 'Cat'), 'abstract': bool(a.get('isAbstract')),
+                       'super': a['superAsset'] if a.get('superAsset') else 'NONE', 'meta': _meta_rec(a.get('meta')),
+                       'vars': [{'name': v['name'], 'expr': v['stepExpression']} for v in a.get('variables', [])],
+                       'steps': steps})
+    assocs = []
+    for x in spec['associations']:
+        lm, rm = x['leftMultiplicity'], x['rightMultiplicity']
+        assocs.append({'name': x['name'], 'lt': x['leftAsset'], 'lf': x['leftField'], 'lmin': lm['min'],
+                       'lmax': -1 if lm['max'] is None else lm['max'], 'rt': x['rightAsset'], 'rf': x['rightField'],
+                       'rmin': rm['min'], 'rmax': -1 if rm['max'] is None else rm['max'], 'meta': _meta_rec(x.get('meta'))})
+    return {'id': spec['defines']['id'], 'version': spec['defines']['version'],
+            'categories': [{'name': c['name'], 'meta': _meta_rec(c.get('meta'))} for c in spec.get('categories', [])],
+            'assets': assets, 'assocs': assocs}
